@@ -259,51 +259,51 @@ def completed_mutants(name):
 
 
 def prop_repeat(case, res):
-    """The same call made twice in a row (and once more later) has the same outcome."""
+    """The same call made twice in a row in a fresh interpreter has the same outcome both times."""
     name = case['mod']
+    res.evals += 1
+    for f in case.get('fns') or ['validate', 'is_valid']:
+        c = {'op': 'call', 'm': name, 'f': f, 'a': [case['x']], 'k': {}}
+        got = run_job({'mode': 'seq', 'steps': [c, c]})['outcomes']
+        if len(got) == 2 and got[0] != got[1]:
+            res.violation('repeat|%s.%s|second-call-differs' % (name, f), 'repeat', {'mod': name, 'x': case['x'], 'fns': [f]},
+                          {'first': got[0][:160], 'second': got[1][:160]})
+            return
+
+
+def repeat_inputs(name):
+    """(module, functions, inputs) for the repetition part; built in a forked helper, used by fresh interpreters."""
     m = core.number_modules()[name]
     fns = [f for f in ['validate', 'is_valid', 'compact', 'format'] if hasattr(m, f)] + [g for mn, g, _k in c12.GETTERS if mn == name]
-    x = core.dec(case['x'])
-    for f in fns:
-        o1 = core.out(getattr(m, f), x)
-        o2 = core.out(getattr(m, f), x)
-        res.evals += 2
-        if o1 != o2:
-            res.violation('repeat|%s.%s|second-call-differs' % (name, f), 'repeat', {'mod': name, 'x': case['x']},
-                          {'first': [str(t)[:80] for t in o1], 'second': [str(t)[:80] for t in o2]})
-            return None
-        if f == 'validate':
-            first = o1
-    return first if 'validate' in fns else None
+    xs, seen = [], set()
+    # the corpus examples as they are (not only what this process still accepts: the helper process has made calls already)
+    for x in gen.seeds(name)[:40] + gen.pool(name)[:60] + gen.near_misses(name)[:20] + gen.edge_pool(name)[:150] + completed_mutants(name):
+        if x not in seen:
+            seen.add(x)
+            xs.append(x)
+    return name, fns, xs
 
 
-def shard_repeat(a):
-    res = core.Result()
-    name = a['mod']
-    xs = gen.pool(name)[:60] + gen.near_misses(name)[:20] + gen.edge_pool(name)[:150] + completed_mutants(name)
-    seen = set()
-    firsts = []
-    for x in xs:
-        if x in seen:
-            continue
-        seen.add(x)
-        res.nt('repeat', name, x)
-        o = prop_repeat({'mod': name, 'x': core.enc(x)}, res)
-        if o is not None and len(firsts) < 400:
-            firsts.append((x, o))
-    res.hist['repeat:inputs'] += len(seen)
-    # ... and once more after all the other inputs of the module went through
-    m = core.number_modules()[name]
-    for x, o in firsts:
-        o3 = core.out(m.validate, x)
-        res.evals += 1
-        if o3 != o:
-            res.violation('repeat|%s.validate|later-call-differs' % name, 'repeat', {'mod': name, 'x': core.enc(x)},
-                          {'first': [str(t)[:80] for t in o], 'later': [str(t)[:80] for t in o3]})
-            break
-    if len(res.samples) < 1 and firsts:
-        res.sample({'repeat': name, 'inputs': len(seen), 'example': firsts[0][0]})
-    return res
+def repeat_job(group):
+    """One fresh interpreter: for every input of every module of the group each call twice in a row, then the first
+    validate calls of each module once more at the end. Returns (calls made, list of differing (call, first, other))."""
+    steps, tail = [], []
+    for name, fns, xs in group:
+        for n, x in enumerate(xs):
+            for f in fns:
+                c = {'op': 'call', 'm': name, 'f': f, 'a': [core.enc(x)], 'k': {}}
+                steps += [c, c]
+                if f == 'validate' and n < 40:
+                    tail.append((len(steps) - 2, c))
+    got = run_job({'mode': 'seq', 'steps': steps + [c for _i, c in tail]}, timeout=3000)['outcomes']
+    diffs = []
+    for k in range(0, len(steps), 2):
+        if got[k] != got[k + 1]:
+            diffs.append((steps[k], got[k], got[k + 1], 'second-call-differs'))
+    for t, (k, c) in enumerate(tail):
+        if got[len(steps) + t] != got[k]:
+            diffs.append((c, got[k], got[len(steps) + t], 'later-call-differs'))
+    return len(got), diffs
 
 
 SUBS = {'hist': prop_hist, 'threads': prop_threads, 'repeat': prop_repeat, 'hashseed': prop_hashseed}
@@ -312,9 +312,30 @@ SUBS = {'hist': prop_hist, 'threads': prop_threads, 'repeat': prop_repeat, 'hash
 def run(ctx):
     core.number_modules()
     res = core.Result()
-    # (0) in-process: every call repeated at once and again later (a cache that remembers a failed lookup, a table that is
+    # (0) repetition in fresh interpreters: every call repeated at once and again later (a cache that remembers a failed lookup, a table that is
     # consumed by the first call); inputs include numbers with a right check digit that are invalid for another reason
-    res.merge(core.run_shards(shard_repeat, [{'shard': 'repeat:' + n, 'mod': n} for n in core.number_modules()]))
+    inputs = core.pmap(repeat_inputs, sorted(core.number_modules()))
+    groups = [inputs[i::32] for i in range(32)]
+    tp0 = ThreadPool(core.NPROC)
+    try:
+        for (ncalls, diffs), group in zip(tp0.map(repeat_job, groups), groups):
+            res.evals += ncalls
+            res.hist['repeat:calls'] += ncalls
+            for name, _fns, xs in group:
+                res.hist['repeat:inputs'] += len(xs)
+                res.nt('repeat', name, len(xs))
+                res.nontrivial_extra += len(xs)
+            for c, first, other, what in diffs[:20]:
+                before = len(res.viol)
+                if what == 'second-call-differs':
+                    prop_repeat({'mod': c['m'], 'x': c['a'][0], 'fns': [c['f']]}, res)
+                if len(res.viol) == before:
+                    # needs more history than the call itself: report with what was observed in the batch
+                    res.violation('repeat|%s.%s|%s' % (c['m'], c['f'], what), 'repeat', {'mod': c['m'], 'x': c['a'][0], 'fns': [c['f']]},
+                                  {'first': first[:160], 'other': other[:160], 'note': 'observed inside a batch of calls in one fresh interpreter'})
+    finally:
+        tp0.close()
+    res.sample({'repeat': 'each call twice in a row in a fresh interpreter', 'modules': len(inputs), 'inputs': sum(len(x[2]) for x in inputs)})
     k = ctx.q(700, 6000)
     pool = build_pool(ctx.seed, k)
     tp = ThreadPool(core.NPROC)
